@@ -15,7 +15,7 @@ from mc import common
 
 LEVEL = "exploration"
 FLOOR = {"CylinderSegment": 3e-5, "TriangularMesh": 1e-6, "Tetrahedron": 1e-6, "Cylinder": 1e-6, "TallMesh": 1e-6, "WideMesh": 1e-6, "TwoPartMesh": 1e-6,
-         "SegmentBeyond360": 3e-5}
+         "SegmentBeyond360": 3e-5, "RepairedMesh": 1e-6}
 POSE = ((0.3, -0.2, 0.5), (0.4, -0.3, 0.8))
 
 
@@ -49,6 +49,13 @@ def mk_sources():
     fb = [(f[0], f[2], f[1]) for f in cf]
     S["TwoPartMesh"] = magpy.magnet.TriangularMesh(vertices=np.concatenate([va, vb]), faces=list(cf) + [tuple(i + 8 for i in f) for f in fb],
                                                    polarization=(0.3, 0.2, 1.0), check_disconnected="ignore", **kw)
+    # a body that turns along its path (several observers per call, one flux per step) and a mesh repaired after a first use
+    S["TurningCuboid"] = magpy.magnet.Cuboid(dimension=(1.0, 1.2, 0.8), polarization=pol, **kw)
+    S["TurningCuboid"].rotate_from_angax([25, 70, 130], (0.3, 1.0, 0.2), anchor=None)
+    badf = [tuple(f) if i % 3 else (f[0], f[2], f[1]) for i, f in enumerate(cf)]
+    S["RepairedMesh"] = magpy.magnet.TriangularMesh(vertices=cv, faces=badf, polarization=pol, reorient_faces="skip", **kw)
+    S["RepairedMesh"].getB((0.1, 0.2, 0.3))
+    S["RepairedMesh"].reorient_faces(mode="ignore")
     # section angles beyond 360 deg that straddle it after normalisation
     S["SegmentBeyond360"] = magpy.magnet.CylinderSegment(dimension=(0.3, 0.9, 1.1, 300, 420), polarization=pol, **kw)
     a = magpy.magnet.Cuboid(dimension=(0.5, 0.4, 0.3), polarization=pol, position=(0.8, 0.1, -0.2))
@@ -69,7 +76,7 @@ GLOBAL_FRAME = ("Collection", "TwoSquares", "TwoMeshes")
 
 SIZE = {"Cuboid": 0.6, "Cylinder": 0.6, "CylinderSegment": 0.9, "Sphere": 0.55, "Tetrahedron": 0.9, "TriangularMesh": 0.6, "Dipole": 0.5,
         "Circle": 0.65, "PolySquare": 0.7, "PolyHexagon": 0.6, "Collection": 1.0, "TwoSquares": 0.7, "TwoMeshes": 1.0,
-        "TallMesh": 0.5, "WideMesh": 0.5, "TwoPartMesh": 0.6, "SegmentBeyond360": 0.9}
+        "TallMesh": 0.5, "WideMesh": 0.5, "TwoPartMesh": 0.6, "SegmentBeyond360": 0.9, "TurningCuboid": 0.6, "RepairedMesh": 0.6}
 
 
 def to_global(p):
@@ -135,13 +142,19 @@ def flux_case(c):
             P, N, W = box_nodes(center, np.array(c["aspect"]) * r, c["rot"], panels, 8)
         with common.time_limit(600):
             # in slices: mesh / segment sources allocate many temporaries per (observer, face) row
-            B = np.concatenate([np.asarray(src.getB(P[i:i + 40000])).reshape(-1, 3) for i in range(0, len(P), 40000)])
+            parts = [np.asarray(src.getB(P[i:i + 40000])) for i in range(0, len(P), 40000)]
+        # sources with a path: one flux per path step (all must vanish); static sources have one step
+        parts = [q.reshape(-1, q.shape[-2], 3) if q.ndim == 3 else q.reshape(1, -1, 3) for q in parts]
+        B = np.concatenate(parts, axis=1)          # (steps, n, 3)
         if not np.all(np.isfinite(B)):
-            return ("nonfinite", f"{int((~np.isfinite(B).all(1)).sum())} non-finite integrand values", None)
-        vals.append(float(np.sum(np.einsum("ij,ij->i", B, N) * W)))
-        Amag = float(np.sum(np.linalg.norm(B, axis=1) * W))
+            return ("nonfinite", f"{int((~np.isfinite(B).all(-1)).sum())} non-finite integrand values", None)
+        vals.append(np.sum(np.einsum("sij,ij->si", B, N) * W, axis=1))
+        Amag = float(np.max(np.sum(np.linalg.norm(B, axis=2) * W, axis=1)))
+    worst = int(np.argmax(np.abs(vals[-1])))
+    step_conv = float(np.max(np.abs(vals[-1] - vals[-2])))
+    vals = [float(v[worst]) for v in vals]
     flux = vals[-1]
-    conv = abs(vals[-1] - vals[-2])
+    conv = max(abs(vals[-1] - vals[-2]), step_conv)
     floor = FLOOR.get(c["src"], 1e-9)
     quad = 10 * conv
     if c["cuts"]:
@@ -162,7 +175,7 @@ def inside_local(src, P):
     """exact inside predicate of the body of source `src` in its LOCAL frame (None for sources without a body)"""
     from mc.oracles import geometry as geo
 
-    box = {"Cuboid": (0.5, 0.6, 0.4), "TriangularMesh": (0.5, 0.6, 0.4), "TallMesh": (0.35, 0.5, 1.5), "WideMesh": (0.7, 1.5, 0.4)}
+    box = {"Cuboid": (0.5, 0.6, 0.4), "TriangularMesh": (0.5, 0.6, 0.4), "RepairedMesh": (0.5, 0.6, 0.4), "TallMesh": (0.35, 0.5, 1.5), "WideMesh": (0.7, 1.5, 0.4)}
     if src in box:
         return np.all(np.abs(P) < np.array(box[src]), axis=1)
     par = {"Cylinder": {"dimension": (1.0, 1.2)}, "CylinderSegment": {"dimension": (0.3, 0.9, 1.1, -30, 200)}, "Sphere": {"diameter": 1.1},
@@ -282,13 +295,17 @@ def circ_case(c):
         P = np.concatenate([p for p, _ in pieces])
         T = np.concatenate([t for _, t in pieces])
         with common.time_limit(300):
-            H = np.asarray(src.getH(P)).reshape(-1, 3)
+            H = np.asarray(src.getH(P))
+        H = H.reshape(-1, H.shape[-2], 3) if H.ndim == 3 else H.reshape(1, -1, 3)     # (path steps, n, 3)
         if not np.all(np.isfinite(H)):
             return ("nonfinite", "non-finite integrand", None)
-        vals.append(float(np.sum(np.einsum("ij,ij->i", H, T))))
-        Amag = float(np.sum(np.linalg.norm(H, axis=1) * np.linalg.norm(T, axis=1)))
+        vals.append(np.sum(np.einsum("sij,ij->si", H, T), axis=1))
+        Amag = float(np.max(np.sum(np.linalg.norm(H, axis=2) * np.linalg.norm(T, axis=1), axis=1)))
+    worst = int(np.argmax(np.abs(vals[-1] - expected)))
+    step_conv = float(np.max(np.abs(vals[-1] - vals[-2])))
+    vals = [float(v[worst]) for v in vals]
     circ = vals[-1]
-    conv = abs(vals[-1] - vals[-2])
+    conv = max(abs(vals[-1] - vals[-2]), step_conv)
     floor = FLOOR.get(c["src"], 1e-9)
     bound = 10 * conv + floor * Amag
     limit = 1e-6 * Amag   # loops are split where they cross the body surface: every piece is smooth
@@ -356,7 +373,7 @@ def enumerate_cases(tier):
         loops = ["nolink", "pentagon"]
         if src in ("Circle", "PolySquare", "PolyHexagon", "Collection", "TwoSquares"):
             loops += ["link1", "link2"]
-        if src not in ("Dipole", "Circle", "PolySquare", "PolyHexagon", "Collection", "TwoSquares", "TwoMeshes"):
+        if src not in ("Dipole", "Circle", "PolySquare", "PolyHexagon", "Collection", "TwoSquares", "TwoMeshes", "TurningCuboid"):
             loops += ["through", "inside"]
         for lp in loops:
             for radius in ([0.05, 0.2] if lp in ("link1", "link2", "inside") else [0.3, 0.8] if lp == "through" else [0.7]):
